@@ -20,16 +20,23 @@ import (
 type c13Case struct {
 	// Heads 0..3 = that many unmerged heads with different rows; 10 = two heads with identical content
 	// (two loaders, same rows, same write_time); 11 = an ancestor and its descendant both still under
-	// root/current (the state a crash between the version PUT and the retire step leaves)
+	// root/current (the state a crash between the version PUT and the retire step leaves); 12 = two unmerged
+	// heads with DIFFERENT rows-per-object settings (two creators of the same empty table): the open refuses
+	// to merge them, which is fine - but it must not write either
 	Heads int   `json:"heads"`
 	Del   bool  `json:"del"`
 	EPN   int   `json:"epn"`
 	First []int `json:"first"` // fixed first operations (sharding)
 	Depth int   `json:"depth"` // total depth
+	// Alpha, when set, restricts the operations after First to these indices of c13Ops (the deeper slice)
+	Alpha []int `json:"alpha,omitempty"`
 }
 
+// c13DeepOps: the operations that matter for state carried from one statement to the next on a read-only table
+var c13DeepOps = []string{"delete-nothing", "insert", "begin", "rollback", "refresh", "writer-adds-head", "select"}
+
 var c13Ops = []string{
-	"select", "select-desc-range", "insert", "update", "delete", "begin", "commit", "rollback",
+	"select", "select-desc-range", "insert", "update", "delete", "delete-nothing", "update-nothing", "begin", "commit", "rollback",
 	"refresh", "version", "changes", "vacuum-past", "vacuum-future", "writer-adds-head",
 }
 
@@ -47,11 +54,11 @@ func c13Run(r *engine.Run) int {
 		") on every base state heads∈{0..3}×delete-markers×entries_per_node∈{2,4096}; a case is non-trivial when it contains a write attempt, refresh, vacuum or a concurrent writer"
 	r.Bounds["depth"] = depth
 	r.Bounds["alphabet"] = c13Ops
-	r.Bounds["heads"] = []string{"0", "1", "2", "3", "2 identical", "ancestor+descendant"}
+	r.Bounds["heads"] = []string{"0", "1", "2", "3", "2 identical", "ancestor+descendant", "2 with different rows-per-object"}
 	r.Bounds["entries_per_node"] = []int{2, 4096}
 	r.Assumptions = []string{"fake store has S3's consistency (atomic objects, strong LIST)", "clients run sequentially in this check (concurrency is C03/C19)"}
 	var cases []json.RawMessage
-	for _, heads := range []int{0, 1, 2, 3, 10, 11} {
+	for _, heads := range []int{0, 1, 2, 3, 10, 11, 12} {
 		for _, del := range []bool{false, true} {
 			if (heads == 0 || heads >= 10) && del {
 				continue
@@ -61,6 +68,25 @@ func c13Run(r *engine.Run) int {
 					for b := range c13Ops {
 						cases = append(cases, engine.J(c13Case{Heads: heads, Del: del, EPN: epn, First: []int{a, b}, Depth: depth}))
 					}
+				}
+			}
+		}
+	}
+	// one step deeper over the smaller alphabet c13DeepOps
+	var deep []int
+	for _, name := range c13DeepOps {
+		for i, o := range c13Ops {
+			if o == name {
+				deep = append(deep, i)
+			}
+		}
+	}
+	r.Bounds["deeper_slice"] = map[string]interface{}{"alphabet": c13DeepOps, "depth": depth + 1}
+	for _, heads := range []int{1, 2} {
+		for _, epn := range []int{2, 4096} {
+			for _, a := range deep {
+				for _, b := range deep {
+					cases = append(cases, engine.J(c13Case{Heads: heads, EPN: epn, First: []int{a, b}, Depth: depth + 1, Alpha: deep}))
 				}
 			}
 		}
@@ -95,6 +121,26 @@ func c13BaseBucket(heads int, del bool, epn int) map[string][]byte {
 			must(c.Exec("begin"))
 			for k := 11; k <= 15; k++ {
 				must(c.Exec("insert into {T} values(?,?,?)", k, "same", k))
+			}
+			must(c.Exec("commit"))
+		}
+		w.Close()
+		m := w.B.Snapshot()
+		c13Base[key] = m
+		return m
+	}
+	if heads == 12 {
+		var cs []*engine.Client
+		for i, e := range []int{2, 3} {
+			c := w.NewClient(fmt.Sprintf("w%d", i+1))
+			must(c.Create(engine.TableOpts{EPN: e}))
+			cs = append(cs, c)
+		}
+		for i, c := range cs {
+			must(c.SetWriteTime(engine.T(200 + 10*i)))
+			must(c.Exec("begin"))
+			for k := 1; k <= 5; k++ {
+				must(c.Exec("insert into {T} values(?,?,?)", 10*(i+1)+k, fmt.Sprintf("b%d", i), k))
 			}
 			must(c.Exec("commit"))
 		}
@@ -163,8 +209,18 @@ func c13Worker(raw json.RawMessage) *engine.Result {
 	base := c13BaseBucket(c.Heads, c.Del, c.EPN)
 	rest := c.Depth - len(c.First)
 	var sample []string
-	seqs(len(c13Ops), rest, func(tailOps []int) {
-		ops := append(append([]int{}, c.First...), tailOps...)
+	nAlpha := len(c13Ops)
+	if len(c.Alpha) > 0 {
+		nAlpha = len(c.Alpha)
+	}
+	seqs(nAlpha, rest, func(tailOps []int) {
+		ops := append([]int{}, c.First...)
+		for _, t := range tailOps {
+			if len(c.Alpha) > 0 {
+				t = c.Alpha[t]
+			}
+			ops = append(ops, t)
+		}
 		names := c13RunSeq(res, base, c, ops)
 		if sample == nil {
 			sample = names
@@ -190,6 +246,15 @@ func c13RunSeq(res *engine.Result, base map[string][]byte, c c13Case, ops []int)
 		return fmt.Sprintf("heads=%d del=%v epn=%d ops=%v", c.Heads, c.Del, c.EPN, names)
 	}
 	if err := ro.Create(engine.TableOpts{EPN: c.EPN, ReadOnly: true}); err != nil {
+		if c.Heads == 12 {
+			// versions with different rows-per-object settings are not merged; the refused open must not have written
+			if len(b.Broken) > 0 {
+				res.Violate("ro-store-mutation:"+strings.Fields(b.Broken[0])[4], "%s (read-only open that was refused: %v; %s)", strings.Join(b.Broken, "; "), err, tag())
+			}
+			res.Outcomes = append(res.Outcomes, "open-refused")
+			res.NontrivN++
+			return names
+		}
 		res.Violate("ro-open-failed", "read-only open failed: %v (%s)", err, tag())
 		return names
 	}
@@ -228,6 +293,13 @@ func c13RunSeq(res *engine.Result, base map[string][]byte, c c13Case, ops []int)
 		case "delete":
 			isWrite, mustFail = true, has(13)
 			err = ro.Exec("delete from {T} where a=13")
+		case "delete-nothing":
+			// a write statement that matches no row: nothing to refuse, nothing may change
+			isWrite = true
+			err = ro.Exec("delete from {T} where a=999")
+		case "update-nothing":
+			isWrite = true
+			err = ro.Exec("update {T} set b='changed' where a=999")
 		case "begin":
 			if inTx {
 				continue
